@@ -20,7 +20,7 @@ import translate as T  # noqa: E402
 
 W = "/tmp/mutfn"
 MODS = ["EvalexprVerif.Proofs." + m for m in ("AgreeFnValueType", "AgreeFnError", "AgreeFnValue", "AgreeFnNumeric", "AgreeFnBuiltin", "AgreeFnLexer", "AgreeFnContext", "AgreeFnOperator",
-                                                "AgreeFnOperatorTables", "AgreeFnTree", "AgreeFnTreeBuild", "AgreeFnTokensToTree", "AgreeFnIter", "AgreeFnInterface")]   # (tree-builder extension: + OperatorTables, TreeBuild, TokensToTree)
+                                                "AgreeFnOperatorTables", "AgreeFnTree", "AgreeFnTreeBuild", "AgreeFnTokensToTree", "AgreeFnIter", "AgreeFnInterface", "AgreeFnSweep")]   # (tree-builder extension: + OperatorTables, TreeBuild, TokensToTree)
 
 
 def sh(cmd, cwd=None, env=None, timeout=900):
